@@ -90,6 +90,8 @@ func c14Menu(c lockCfg, thorough bool) func(w *engb.World, st *engb.LState, dept
 		{Dt: 1, Ops: []engb.LOp{{Kind: "weight", Token: 0, U64: 2}}},
 		{Dt: 1, Ops: []engb.LOp{{Kind: "threshold", Token: 0, Amt: amt(1)}}},
 		{Dt: 1, Ops: []engb.LOp{{Kind: "threshold", Token: 1, Amt: amt(1)}}}, // a threshold on a token nobody holds yet
+		// two threshold requests in one block: a real change followed by a re-announcement of a stored value
+		{Dt: 1, Ops: []engb.LOp{{Kind: "threshold", Token: 1, Amt: amt(1)}, {Kind: "threshold", Token: 0, Amt: amt(2)}}},
 		{Dt: 1, Absent: []int{0}, Ops: []engb.LOp{{Kind: "lock", Val: 0, Token: 0, Amt: amt(1)}}},
 		{Dt: 1, Absent: []int{0}, Evidence: []engb.EvSpec{{Val: 0, AgeBlocks: 1, AgeSecs: 1}}},
 		// several pieces of evidence in one block: an expired one must not shadow a fresh one
@@ -340,7 +342,7 @@ func c14Monitor(r *mc.Run, c lockCfg) engb.Monitor {
 }
 
 func runC14(r *mc.Run) {
-	depth := 6
+	depth := 5
 	if r.Thorough() {
 		depth = 8
 		r.SetBudget(10 * 60 * 1e9)
